@@ -854,6 +854,8 @@ func (t *Terminal) csi(s Seq) {
 				if t.Modes[m] {
 					st = 1
 				}
+			} else {
+				st = t.Prof.AbsentModeReply
 			}
 		} else if _, ok := baselineModes[m]; ok {
 			st = 2
